@@ -64,6 +64,11 @@ var orderedRanges = []orderedRange{
 	// through the injected hook so that a contract-checking VFS can sit
 	// between the files store and osfs.go)
 	{file: "pkg/blobserver/files/osfs.go", from: "\treturn osFS{}\n", to: "\treturn verifWrapOSFS(osFS{})\n", noImport: true},
+	// (tuning knobs: the two compaction limits of the encrypting store become
+	// variables, so that a run can lower them - see inject/.../verif_knobs.*)
+	{file: "pkg/blobserver/encrypt/meta.go",
+		from: "const (\n\t// FullMetaBlobSize is the number of lines at which we stop compacting a meta blob.\n",
+		to:   "var (\n\t// FullMetaBlobSize is the number of lines at which we stop compacting a meta blob.\n", noImport: true},
 	{file: "pkg/server/sync.go",
 		from: "for br, size := range sh.needCopy {",
 		to:   "for _, br := range verifsimcore.SortedKeys(sh.needCopy) {\n\t\t\tsize := sh.needCopy[br]"},
@@ -149,6 +154,7 @@ func generate(repo, workDir, injectDir string, enableOSShim, rewrite bool, name 
 		return "", st, err
 	}
 	replace := map[string]string{}
+	rewritten := map[string]bool{} // files in which a listed textual rewrite applied
 	fset := token.NewFileSet()
 	roots := scanRoots
 	if !rewrite {
@@ -217,6 +223,7 @@ func generate(repo, workDir, injectDir string, enableOSShim, rewrite bool, name 
 			out, ordered := applyOrderedRanges(filepath.ToSlash(rel), out)
 			if ordered {
 				st.OrderedRanges++
+				rewritten[filepath.ToSlash(rel)] = true
 			}
 			if len(edits) == 0 && !ordered {
 				return nil
@@ -241,10 +248,34 @@ func generate(repo, workDir, injectDir string, enableOSShim, rewrite bool, name 
 			if err != nil {
 				return err
 			}
-			if fi.IsDir() || !strings.HasSuffix(path, ".go") {
+			if fi.IsDir() {
 				return nil
 			}
 			rel, _ := filepath.Rel(injectDir, path)
+			// <name>.on / <name>.off: two variants of one accessor file, the
+			// first for builds in which the overlay's textual rewrite of the
+			// package's knobs applied, the second for all others (a tree
+			// where the declaration reads differently, or the inject-only
+			// overlay of the race configuration)
+			if strings.HasSuffix(path, ".on") || strings.HasSuffix(path, ".off") {
+				on := false
+				for f := range rewritten {
+					if filepath.ToSlash(filepath.Dir(f)) == filepath.ToSlash(filepath.Dir(rel)) {
+						on = true
+					}
+				}
+				if on != strings.HasSuffix(path, ".on") {
+					return nil
+				}
+				base := strings.TrimSuffix(strings.TrimSuffix(filepath.Base(rel), ".on"), ".off")
+				target := filepath.Join(repo, filepath.Dir(rel), "zz_verif_"+base+".go")
+				replace[target] = path
+				st.Injected++
+				return nil
+			}
+			if !strings.HasSuffix(path, ".go") {
+				return nil
+			}
 			target := filepath.Join(repo, filepath.Dir(rel), "zz_verif_"+filepath.Base(rel))
 			if _, err := os.Stat(filepath.Dir(target)); err != nil {
 				return fmt.Errorf("inject: package directory for %s missing in repo", rel)
